@@ -1,4 +1,699 @@
-import LA.Model.Coalesce
+/-
+C09 — Coalescing keeps every record's fields, the event identity and file facts.
+
+Theorems about `LA.Coalesce.coalesce` (Model/Coalesce.lean), for every table set `T`
+(normalisations, syscall/record-type indexes, event-type ranges — the driver and the data
+obligations instantiate `T` with the regenerated `genTables`), every list of message views
+of any length and any field values.  Helper lemmas are in LA/Proofs/Coalesce*.lean.
+-/
+import LA.Proofs.CoalesceNorm
+
 namespace LA.Coalesce
-theorem C09_placeholder : True := trivial
+
+/-! ### statement vocabulary -/
+
+/-- the pair `(k, v)` is present somewhere in the event: Data (also under `socket_`+k), user
+ids, SELinux labels (`subj_`+label), Result, Session, some PATH record, `process.args[i]`
+for `k = a<i>`, a `process.*` field for pid/ppid/proctitle/comm/exe/cwd, or the source address. -/
+def Located (e : Event) (k v : Bytes) : Prop :=
+  lookup k e.data = some v ∨ lookup (kSocket_ ++ k) e.data = some v ∨
+  StableLoc e k v ∨ ArgsLoc e k v ∨ ProcLoc e k v ∨ (∃ a, e.source = some a ∧ a.ip = v)
+
+/-- the groups the conservation clause is claimed for (`recs` = the records after the
+trailing EOE has been dropped): every `Data()` result is a map; an EXECVE record carries
+`argc`, `a0 … a(argc-1)` only; a group of two or more records has exactly one SYSCALL record
+and at most one EXECVE record; and the SYSCALL record carries `items` (as every kernel
+SYSCALL record does) unless no AVC/other record carries that key.  Mirrored by
+`wellFormedC09` in harness/cmd/drive/coalesce.go. -/
+structure WellFormed (recs : List View) : Prop where
+  recOK : ∀ m ∈ recs, RecOK m
+  oneSyscall : recs.length ≥ 2 → nSys recs = 1
+  oneExecve : nExec recs ≤ 1
+  items : recs.length ≥ 2 → ∀ s ∈ recs, s.typ = SYSCALL →
+    (∃ d, s.data = some d ∧ hasKey kItems d = true) ∨
+    (∀ m ∈ recs, IsOther m.typ → ∀ d, m.data = some d → lookup kItems d = none)
+
+/-! ### constants the model shares with the Go sources (regenerated) -/
+
+theorem C09_consts :
+    SYSCALL = LA.Gen.CoalesceConsts.auditSyscall ∧ PATH = LA.Gen.CoalesceConsts.auditPath ∧
+    SOCKADDR = LA.Gen.CoalesceConsts.auditSockaddr ∧ EXECVE = LA.Gen.CoalesceConsts.auditExecve ∧
+    EOE = LA.Gen.CoalesceConsts.auditEOE ∧
+    LA.Gen.CoalesceConsts.modeTypeBits = [19, 21, 24, 25, 26, 27, 31] ∧
+    LA.Gen.CoalesceConsts.modeDirBit = 31 ∧ LA.Gen.CoalesceConsts.modeCharDeviceBit = 21 ∧
+    LA.Gen.CoalesceConsts.modeNamedPipeBit = 25 ∧ LA.Gen.CoalesceConsts.modeSymlinkBit = 27 ∧
+    LA.Gen.CoalesceConsts.modeSocketBit = 24 ∧ LA.Gen.CoalesceConsts.modeBlockDeviceBits = [13, 14] := by
+  decide
+
+/-! ### identity and errors -/
+
+theorem assemble_ok_cases {T : Tables} {msgs : List View} {e0 : Event} (h : assemble T msgs = .ok e0) :
+    (∃ m, filterEOE msgs = [m] ∧ e0 = newEvent T m m) ∨
+    (∃ first second rest s, filterEOE msgs = first :: second :: rest ∧
+      (first :: second :: rest).find? (fun v => decide (v.typ = SYSCALL)) = some s ∧
+      e0 = (first :: second :: rest).foldl step (newEvent T first s)) := by
+  unfold assemble at h
+  cases hm : filterEOE msgs with
+  | nil => rw [hm] at h; cases h
+  | cons first rest =>
+    cases rest with
+    | nil =>
+      rw [hm] at h
+      simp only at h
+      cases h
+      exact Or.inl ⟨first, rfl, rfl⟩
+    | cons second rest =>
+      rw [hm] at h
+      simp only at h
+      split at h
+      · cases h
+      · rename_i s hs
+        cases h
+        exact Or.inr ⟨first, second, rest, s, rfl, hs, rfl⟩
+
+theorem setObject_no_err (n : Norm) (e : Event) (x : CErr) : setObject n e ≠ .err x := by
+  unfold setObject
+  split
+  · split
+    · simp
+    · split <;> simp
+  · split <;> simp
+
+theorem applyNorm_no_err (T : Tables) (e : Event) (x : CErr) : applyNorm T e ≠ .err x := by
+  unfold applyNorm
+  simp only
+  split
+  · simp
+  · split
+    · simp
+    · rename_i y hy
+      exact absurd hy (setObject_no_err _ _ _)
+    · simp
+
+theorem coalesce_ok_split {T : Tables} {msgs : List View} {e : Event} (h : coalesce T msgs = .ok e) :
+    ∃ e0 e1, assemble T msgs = .ok e0 ∧ applyNorm T e0 = .ok e1 ∧ e = addProcess e1 := by
+  unfold coalesce at h
+  split at h
+  · rename_i e0 h0
+    split at h
+    · rename_i e1 h1
+      cases h
+      exact ⟨e0, e1, h0, h1, rfl⟩
+    · cases h
+    · cases h
+  · cases h
+  · cases h
+
+/-- The event carries the timestamp, sequence and record type of the first record (after
+the trailing EOE is dropped) and the category `GetAuditEventType` gives that type. -/
+theorem C09_identity (T : Tables) (msgs : List View) (e : Event) (h : coalesce T msgs = .ok e) :
+    ∃ first rest, filterEOE msgs = first :: rest ∧
+      e.ts = first.ts ∧ e.seq = first.seq ∧ e.typ = first.typ ∧ e.cat = categoryOf T first.typ := by
+  obtain ⟨e0, e1, h0, h1, rfl⟩ := coalesce_ok_split h
+  have hn := applyNorm_nframe T e0 e1 h1
+  have key : ∃ first rest, filterEOE msgs = first :: rest ∧
+      e0.ts = first.ts ∧ e0.seq = first.seq ∧ e0.typ = first.typ ∧ e0.cat = categoryOf T first.typ := by
+    rcases assemble_ok_cases h0 with ⟨m, hm, rfl⟩ | ⟨first, second, rest, s, hm, _, rfl⟩
+    · have := newEvent_identity T m m
+      exact ⟨m, [], hm, this.1, this.2.1, this.2.2.1, this.2.2.2.1⟩
+    · have := newEvent_identity T first s
+      have hf := foldl_step_sframe (first :: second :: rest) (newEvent T first s)
+      exact ⟨first, second :: rest, hm, hf.ts.trans this.1, hf.seq.trans this.2.1,
+        hf.typ.trans this.2.2.1, hf.cat.trans this.2.2.2.1⟩
+  obtain ⟨first, rest, hm, h1', h2', h3', h4'⟩ := key
+  refine ⟨first, rest, hm, ?_, ?_, ?_, ?_⟩
+  · show e1.ts = _; rw [hn.ts]; exact h1'
+  · show e1.seq = _; rw [hn.seq]; exact h2'
+  · show e1.typ = _; rw [hn.typ]; exact h3'
+  · show e1.cat = _; rw [hn.cat]; exact h4'
+
+/-- No records: an error and no event.  Two or more records without a SYSCALL record: an
+error and no event.  And an error is returned in these two cases only. -/
+theorem C09_errors (T : Tables) (msgs : List View) :
+    (filterEOE msgs = [] → coalesce T msgs = .err .empty) ∧
+    ((filterEOE msgs).length ≥ 2 → (∀ m ∈ filterEOE msgs, m.typ ≠ SYSCALL) →
+      coalesce T msgs = .err .noSyscall) ∧
+    (∀ x, coalesce T msgs = .err x →
+      (x = .empty ∧ filterEOE msgs = []) ∨
+      (x = .noSyscall ∧ (filterEOE msgs).length ≥ 2 ∧ ∀ m ∈ filterEOE msgs, m.typ ≠ SYSCALL)) := by
+  refine ⟨?_, ?_, ?_⟩
+  · intro h
+    simp [coalesce, assemble, h]
+  · intro hl hs
+    unfold coalesce assemble
+    cases hm : filterEOE msgs with
+    | nil => rw [hm] at hl; simp at hl
+    | cons first rest =>
+      cases rest with
+      | nil => rw [hm] at hl; simp at hl
+      | cons second rest =>
+        simp only
+        have : (first :: second :: rest).find? (fun v => decide (v.typ = SYSCALL)) = none := by
+          apply List.find?_eq_none.mpr
+          intro x hx
+          have := hs x (by rw [hm]; exact hx)
+          simpa using this
+        rw [this]
+  · intro x h
+    unfold coalesce at h
+    cases ha : assemble T msgs with
+    | ok e0 =>
+      rw [ha] at h
+      simp only at h
+      cases hn : applyNorm T e0 with
+      | ok e1 => rw [hn] at h; cases h
+      | err y => exact absurd hn (applyNorm_no_err T e0 y)
+      | panic => rw [hn] at h; cases h
+    | panic => rw [ha] at h; cases h
+    | err y =>
+      rw [ha] at h
+      cases h
+      unfold assemble at ha
+      cases hm : filterEOE msgs with
+      | nil =>
+        rw [hm] at ha
+        cases ha
+        exact Or.inl ⟨rfl, rfl⟩
+      | cons first rest =>
+        cases rest with
+        | nil => rw [hm] at ha; cases ha
+        | cons second rest =>
+          rw [hm] at ha
+          simp only at ha
+          split at ha
+          · rename_i hf
+            cases ha
+            right
+            refine ⟨rfl, by simp, ?_⟩
+            intro m hmem
+            have := List.find?_eq_none.mp hf m hmem
+            simpa using this
+          · cases ha
+
+/-! ### conservation -/
+
+theorem socket_not_proc (k v : Bytes) (e : Event) : ¬ ProcLoc e (kSocket_ ++ k) v := by
+  intro h
+  rcases h with ⟨h, _⟩ | ⟨h, _⟩ | ⟨h, _⟩ | ⟨h, _⟩ | ⟨h, _⟩ | ⟨h, _⟩ <;>
+    simp [kSocket_, kPid, kPpid, kProctitle, kComm, kExe, kCwd] at h
+
+/-- what survives `applyNormalization` and `addProcess`. -/
+theorem finish_located {T : Tables} {e0 e1 : Event} (h1 : applyNorm T e0 = .ok e1) (k v : Bytes) :
+    (StableLoc e0 k v → Located (addProcess e1) k v) ∧
+    (lookup k e0.data = some v → Located (addProcess e1) k v) ∧
+    (lookup (kSocket_ ++ k) e0.data = some v → Located (addProcess e1) k v) ∧
+    (ArgsLoc e0 k v → Located (addProcess e1) k v) ∧
+    (∀ typ, Warned e0 typ k → Warned (addProcess e1) typ k) := by
+  have hn := applyNorm_nframe T e0 e1 h1
+  refine ⟨?_, ?_, ?_, ?_, ?_⟩
+  · intro h
+    refine Or.inr (Or.inr (Or.inl ?_))
+    rcases h with h | ⟨hp, h⟩ | ⟨hk, h⟩ | ⟨hk, h⟩ | ⟨p, hp, h⟩
+    · exact Or.inl (by show lookup k e1.ids = _; rw [hn.ids]; exact h)
+    · exact Or.inr (Or.inl ⟨hp, by show lookup _ e1.selinux = _; rw [hn.selinux]; exact h⟩)
+    · exact Or.inr (Or.inr (Or.inl ⟨hk, by show e1.result = _; rw [hn.result]; exact h⟩))
+    · exact Or.inr (Or.inr (Or.inr (Or.inl ⟨hk, by show e1.session = _; rw [hn.session]; exact h⟩)))
+    · exact Or.inr (Or.inr (Or.inr (Or.inr ⟨p, by show p ∈ e1.paths; rw [hn.paths]; exact hp, h⟩)))
+  · intro h
+    rcases hn.data k v h with h | ⟨a, ha, hv⟩
+    · rcases addProcess_data e1 h with h | h
+      · exact Or.inl h
+      · exact Or.inr (Or.inr (Or.inr (Or.inr (Or.inl h))))
+    · exact Or.inr (Or.inr (Or.inr (Or.inr (Or.inr ⟨a, ha, hv⟩))))
+  · intro h
+    rcases hn.data _ v h with h | ⟨a, ha, hv⟩
+    · rcases addProcess_data e1 h with h | h
+      · exact Or.inr (Or.inl h)
+      · exact absurd h (socket_not_proc k v _)
+    · exact Or.inr (Or.inr (Or.inr (Or.inr (Or.inr ⟨a, ha, hv⟩))))
+  · intro ⟨i, hk, hi⟩
+    exact Or.inr (Or.inr (Or.inr (Or.inl ⟨i, hk, by show e1.args[i]? = _; rw [hn.args]; exact hi⟩)))
+  · intro typ h
+    obtain ⟨w, hw⟩ := hn.warn
+    have hm : ∀ x, x ∈ e0.warnings → x ∈ (addProcess e1).warnings := fun x hx => by
+      show x ∈ e1.warnings; rw [hw]; exact List.mem_append_left _ hx
+    rcases h with h | h | ⟨ht, h⟩ | ⟨ht, h | h | ⟨κ, h⟩⟩
+    · exact Or.inl (hm _ h)
+    · exact Or.inr (Or.inl (hm _ h))
+    · exact Or.inr (Or.inr (Or.inl ⟨ht, hm _ h⟩))
+    · exact Or.inr (Or.inr (Or.inr ⟨ht, Or.inl (hm _ h)⟩))
+    · exact Or.inr (Or.inr (Or.inr ⟨ht, Or.inr (Or.inl (hm _ h))⟩))
+    · exact Or.inr (Or.inr (Or.inr ⟨ht, Or.inr (Or.inr ⟨κ, hm _ h⟩)⟩))
+
+theorem safeNA_finish {T : Tables} {e0 e1 : Event} (h1 : applyNorm T e0 = .ok e1) {typ : Nat} {k v : Bytes}
+    (h : SafeNA e0 typ k v) : Located (addProcess e1) k v ∨ Warned (addProcess e1) typ k := by
+  have f := finish_located h1 k v
+  rcases h with h | h | ⟨_, h⟩ | h
+  · exact Or.inl (f.1 h)
+  · exact Or.inr (f.2.2.2.2 typ h)
+  · exact Or.inl (f.2.1 h)
+  · exact Or.inl (f.2.2.1 h)
+
+theorem unique_syscall {recs : List View} (h : nSys recs = 1) {m s : View} (hm : m ∈ recs) (hs : s ∈ recs)
+    (hmt : m.typ = SYSCALL) (hst : s.typ = SYSCALL) : m = s := by
+  induction recs with
+  | nil => cases hm
+  | cons x tl ih =>
+    rw [nSys_cons] at h
+    by_cases hx : x.typ = SYSCALL
+    · simp only [hx, if_true] at h
+      have h0 : nSys tl = 0 := by omega
+      have hz := nSys_zero h0
+      rcases List.mem_cons.mp hm with rfl | hm'
+      · rcases List.mem_cons.mp hs with rfl | hs'
+        · rfl
+        · exact absurd hst (hz s hs')
+      · exact absurd hmt (hz m hm')
+    · simp only [hx, if_false] at h
+      rcases List.mem_cons.mp hm with rfl | hm'
+      · exact absurd hmt hx
+      · rcases List.mem_cons.mp hs with rfl | hs'
+        · exact absurd hst hx
+        · exact ih (by omega) hm' hs'
+
+theorem items_routed : ∀ (e : Event) (v : Bytes), Routed e kItems v → lookup kItems e.data = some v := by
+  intro e v h
+  unfold Routed at h
+  have h1 : ¬ (kItems = kResult ∨ kItems = kSes) := by decide
+  have h2 : isIdKey kItems = false := by decide
+  have h3 : hasPrefix kSubj_ kItems = false := by decide
+  simpa [h1, h2, h3] using h
+
+theorem newEvent_routed (T : Tables) (first src : View) {d : KV} (hd : src.data = some d) (hn : NoDupKeys d)
+    {k v : Bytes} (h : (k, v) ∈ d) : Routed (newEvent T first src) k v := by
+  unfold newEvent
+  rw [hd]
+  exact foldl_distribute_routes d _ hn h
+
+/-- **Conservation.**  For a well-formed group, every key/value pair that any record's
+`Data()` reports is present somewhere in the event, or a warning naming the record type and
+the key (or the record as a whole) is attached; the only pair dropped on purpose is `items`
+of the SYSCALL record of a compound event. -/
+theorem C09_conservation (T : Tables) (msgs : List View) (e : Event)
+    (hwf : WellFormed (filterEOE msgs)) (h : coalesce T msgs = .ok e) :
+    ∀ m ∈ filterEOE msgs, ∀ d, m.data = some d → ∀ k v, (k, v) ∈ d →
+      Located e k v ∨ Warned e m.typ k ∨
+      ((filterEOE msgs).length ≥ 2 ∧ m.typ = SYSCALL ∧ k = kItems) := by
+  obtain ⟨e0, e1, h0, h1, rfl⟩ := coalesce_ok_split h
+  intro m hm d hd k v hkv
+  have hok := hwf.recOK m hm
+  have f := finish_located h1 k v
+  rcases assemble_ok_cases h0 with ⟨m', hm', rfl⟩ | ⟨first, second, rest, s, hrecs, hs, rfl⟩
+  · -- a single record
+    rw [hm'] at hm
+    have : m = m' := by simpa using hm
+    subst this
+    rcases newEvent_kept T m m hd (hok.nodup d hd) hkv with hst | ⟨_, hl⟩
+    · exact Or.inl (f.1 hst)
+    · exact Or.inl (f.2.1 hl)
+  · -- a compound event
+    rw [hrecs] at hm hwf
+    have hlen : (first :: second :: rest).length ≥ 2 := by simp
+    have hns := hwf.oneSyscall hlen
+    have hsm : s ∈ first :: second :: rest := List.mem_of_find?_eq_some hs
+    have hst : s.typ = SYSCALL := by simpa using List.find?_some hs
+    have hfr := foldl_step_sframe (first :: second :: rest) (newEvent T first s)
+    by_cases hmt : m.typ = SYSCALL
+    · -- the SYSCALL record: routed by newEvent
+      have : m = s := unique_syscall hns hm hsm hmt hst
+      subst this
+      by_cases hk : k = kItems
+      · right; right
+        rw [hrecs]
+        exact ⟨hlen, hmt, hk⟩
+      · rcases newEvent_kept T first m hd (hok.nodup d hd) hkv with hst' | ⟨_, hl⟩
+        · exact Or.inl (f.1 (hst'.mono hfr))
+        · exact Or.inl (f.2.1 (hfr.data k v (Or.inl hk) hl))
+    · -- any other record: kept by the loop
+      have hI : nSys (first :: second :: rest) = 1 →
+          hasKey kItems (newEvent T first s).data = true ∨
+          ∀ m ∈ first :: second :: rest, IsOther m.typ → ∀ d, m.data = some d → lookup kItems d = none := by
+        intro _
+        rcases hwf.items hlen s hsm hst with ⟨ds, hds, hi⟩ | hno
+        · left
+          obtain ⟨iv, hiv⟩ := hasKey_iff.mp hi
+          have hr := newEvent_routed T first s hds ((hwf.recOK s hsm).nodup ds hds) (lookup_mem hiv)
+          exact hasKey_iff.mpr ⟨iv, items_routed _ _ hr⟩
+        · exact Or.inr hno
+      rcases fold_kept (first :: second :: rest) (newEvent T first s) (by omega) hwf.oneExecve hI
+        hwf.recOK m hm hmt d hd k v hkv with hsafe | hargs | hl
+      · rcases safeNA_finish h1 hsafe with h' | h'
+        · exact Or.inl h'
+        · exact Or.inr (Or.inl h')
+      · exact Or.inl (f.2.2.2.1 hargs)
+      · exact Or.inl (f.2.1 hl)
+
+/-- The `items` hypothesis of `WellFormed` cannot be dropped: if the SYSCALL record has no
+`items` key, an `items` pair contributed by an earlier record is deleted without a warning
+(the SYSCALL case of the record loop deletes the key unconditionally). -/
+def C09_conservation_without_items_guard : Prop :=
+  ∀ (T : Tables) (msgs : List View) (e : Event), coalesce T msgs = .ok e →
+    ∀ m ∈ filterEOE msgs, ∀ d, m.data = some d → ∀ k v, (k, v) ∈ d →
+      Located e k v ∨ Warned e m.typ k ∨ ((filterEOE msgs).length ≥ 2 ∧ m.typ = SYSCALL ∧ k = kItems)
+
+/-! ### PATH records, file facts -/
+
+theorem step_paths (e : Event) (m : View) :
+    (step e m).paths = e.paths ++ (if m.typ = PATH then m.data.toList else []) := by
+  unfold step
+  by_cases h1 : m.typ = SYSCALL
+  · have hsp : SYSCALL ≠ PATH := by decide
+    simp [h1, hsp]
+  · simp only [h1, if_false]
+    by_cases h2 : m.typ = PATH
+    · simp only [h2, if_true]
+      unfold addPath
+      cases m.data <;> simp [warn]
+    · simp only [h2, if_false, List.append_nil]
+      by_cases h3 : m.typ = SOCKADDR
+      · simp only [h3, if_true]
+        obtain ⟨x, hx⟩ := (addSockaddr_sframe True True m e).paths
+        -- addSockaddr never appends a path
+        unfold addSockaddr
+        cases m.data with
+        | none => simp [warn]
+        | some d =>
+          simp only
+          cases lookup kSyscall e.data with
+          | none => simp [warn]
+          | some sc =>
+            simp only
+            have hp : ∀ (l : KV) (e : Event),
+                (l.foldl (fun e kv => addField m.typ e (kSocket_ ++ kv.1, kv.2)) e).paths = e.paths := by
+              intro l
+              induction l with
+              | nil => intro e; rfl
+              | cons y l ih =>
+                intro e
+                simp only [List.foldl_cons, ih]
+                unfold addField
+                split <;> simp [warn]
+            split
+            · exact hp d e
+            · split
+              · exact hp d e
+              · exact hp d e
+      · simp only [h3, if_false]
+        by_cases h4 : m.typ = EXECVE
+        · simp only [h4, if_true]
+          unfold addExecve
+          have hf : ∀ (e : Event) (kv : Bytes × Bytes), (addField m.typ e kv).paths = e.paths := by
+            intro e kv; unfold addField; split <;> simp [warn]
+          cases m.data with
+          | none => simp [warn]
+          | some d =>
+            simp only
+            cases lookup kArgc d with
+            | none => simp [warn]
+            | some argc =>
+              simp only
+              cases parseUint 10 32 argc with
+              | none => simp [warn, hf]
+              | some n =>
+                simp only
+                cases collectArgs d n 0 <;> simp [warn, hf]
+        · simp only [h4, if_false]
+          unfold addOther
+          cases m.data with
+          | none => simp [warn]
+          | some d =>
+            simp only
+            have hp : ∀ (l : KV) (e : Event), (l.foldl (addField m.typ) e).paths = e.paths := by
+              intro l
+              induction l with
+              | nil => intro e; rfl
+              | cons y l ih =>
+                intro e
+                simp only [List.foldl_cons, ih]
+                unfold addField
+                split <;> simp [warn]
+            exact hp d e
+
+theorem foldl_step_paths (recs : List View) (e : Event) :
+    (recs.foldl step e).paths =
+      e.paths ++ (recs.filter (fun m => decide (m.typ = PATH))).flatMap (fun m => m.data.toList) := by
+  induction recs generalizing e with
+  | nil => simp
+  | cons m tl ih =>
+    simp only [List.foldl_cons, ih, step_paths, List.filter_cons]
+    by_cases h : m.typ = PATH <;> simp [h]
+
+/-- `event.Paths` is exactly the `Data()` maps of the PATH records that parsed, in record
+order (compound events; a single record yields no paths). -/
+theorem C09_paths (T : Tables) (msgs : List View) (e : Event) (h : coalesce T msgs = .ok e) :
+    e.paths = if (filterEOE msgs).length ≥ 2 then
+      ((filterEOE msgs).filter (fun m => decide (m.typ = PATH))).flatMap (fun m => m.data.toList) else [] := by
+  obtain ⟨e0, e1, h0, h1, rfl⟩ := coalesce_ok_split h
+  have hn := applyNorm_nframe T e0 e1 h1
+  show e1.paths = _
+  rw [hn.paths]
+  rcases assemble_ok_cases h0 with ⟨m, hm, rfl⟩ | ⟨first, second, rest, s, hm, _, rfl⟩
+  · rw [hm]; simp [(newEvent_identity T m m).2.2.2.2.1]
+  · rw [hm, foldl_step_paths, (newEvent_identity T first s).2.2.2.2.1]
+    simp
+
+/-- what `setFileObject` derives from the PATH record `p` it selected. -/
+def FileMirrors (e : Event) (objectWhat : Bytes) (p : KV) : Prop :=
+  ∃ f, e.file = some f ∧ f.path = getD kName p ∧ f.inode = getD kInode p ∧ f.device = getD kRdev p ∧
+    f.owner = [] ∧ f.group = [] ∧
+    match lookup kMode p with
+    | none =>
+      f.mode = [] ∧ f.uid = getD kOuid p ∧ f.gid = getD kOgid p ∧ f.selinux = objLabels p ∧
+      e.objType = objectWhat
+    | some mv =>
+      match parseUint 8 64 mv with
+      | none =>
+        f.mode = [] ∧ f.uid = [] ∧ f.gid = [] ∧ f.selinux = [] ∧ Warn.fileObj ∈ e.warnings ∧
+        e.objType = objectWhat
+      | some n =>
+        f.mode = oct4 (n % 4096) ∧ f.uid = getD kOuid p ∧ f.gid = getD kOgid p ∧ f.selinux = objLabels p ∧
+        e.objType = classifyMode (n % 4294967296) objectWhat
+
+theorem fileFromPath_mirrors (e : Event) (p : KV) : FileMirrors (fileFromPath e p) e.objType p := by
+  have hmod : ∀ n : Nat, n % 4294967296 % 4096 = n % 4096 := fun n => by omega
+  unfold FileMirrors fileFromPath
+  simp only
+  cases hn : lookup kName p <;> cases hm : lookup kMode p <;> simp only
+  · exact ⟨_, rfl, by simp⟩
+  · cases hp : parseUint 8 64 _ with
+    | none => exact ⟨_, rfl, by simp [warn]⟩
+    | some n => exact ⟨_, rfl, by simp [hmod]⟩
+  · exact ⟨_, rfl, by simp⟩
+  · cases hp : parseUint 8 64 _ with
+    | none => exact ⟨_, rfl, by simp [warn]⟩
+    | some n => exact ⟨_, rfl, by simp [hmod]⟩
+
+/-- **File facts.**  When the normalisation chosen for the event describes a file or
+filesystem object and the event has PATH records, `setFileObject` selects the record
+`selectPath` names (never out of range here) and the file summary mirrors it: path, inode,
+device (`rdev`), owner ids, SELinux labels (`obj_*`), the permission bits `mode & 07777`
+printed as four octal digits — for **every** mode value that parses — and the object type
+`classifyMode` gives the mode (see `C09_type_*`). -/
+theorem C09_file (T : Tables) (msgs : List View) (e e0 : Event) (ni : Nat)
+    (h : coalesce T msgs = .ok e) (h0 : assemble T msgs = .ok e0)
+    (hsel : selectNorm T (setHowDefaults e0) = some ni)
+    (hwhat : (normAt T ni).objectWhat = vFile ∨ (normAt T ni).objectWhat = vFilesystem)
+    (hpaths : e0.paths ≠ []) :
+    ∃ p, selectPath e0.paths (normAt T ni).objectPathIndex = some p ∧
+      FileMirrors e (normAt T ni).objectWhat p := by
+  obtain ⟨e0', e1, h0', h1, rfl⟩ := coalesce_ok_split h
+  rw [h0] at h0'; cases h0'
+  unfold applyNorm at h1
+  simp only [hsel] at h1
+  split at h1
+  · rename_i e2 h2
+    cases h1
+    have hp2 : (setEcs T ni (syscallNormOf T (setHowDefaults e0)) (setHowDefaults e0)).paths = e0.paths :=
+      ((setHowDefaults_nframe e0).trans (setEcs_nframe T ni _ _)).paths
+    have hot : (setEcs T ni (syscallNormOf T (setHowDefaults e0)) (setHowDefaults e0)).objType =
+        (normAt T ni).objectWhat := by
+      unfold setEcs; simp only
+    unfold setObject at h2
+    simp only [hwhat, if_true, hp2, hpaths, if_false] at h2
+    split at h2
+    · cases h2
+    · rename_i p hp
+      cases h2
+      refine ⟨p, hp, ?_⟩
+      have hm := fileFromPath_mirrors (setEcs T ni (syscallNormOf T (setHowDefaults e0)) (setHowDefaults e0)) p
+      rw [hot] at hm
+      generalize fileFromPath (setEcs T ni (syscallNormOf T (setHowDefaults e0)) (setHowDefaults e0)) p = ef at hm ⊢
+      have ht : TFrame ef (addProcess (applyTail (normAt T ni) ef)) :=
+        (applyTail_tframe (normAt T ni) ef).trans (addProcess_tframe _)
+      have hn := applyTail_nframe (normAt T ni) ef
+      obtain ⟨f, hf, h1', h2', h3', h4', h5', hrest⟩ := hm
+      refine ⟨f, by rw [ht.file]; exact hf, h1', h2', h3', h4', h5', ?_⟩
+      obtain ⟨w, hw⟩ := hn.warn
+      cases hmode : lookup kMode p with
+      | none =>
+        rw [hmode] at hrest
+        simp only at hrest ⊢
+        exact ⟨hrest.1, hrest.2.1, hrest.2.2.1, hrest.2.2.2.1, by rw [ht.objType]; exact hrest.2.2.2.2⟩
+      | some mv =>
+        rw [hmode] at hrest
+        simp only at hrest ⊢
+        cases hpm : parseUint 8 64 mv with
+        | none =>
+          rw [hpm] at hrest
+          simp only at hrest ⊢
+          refine ⟨hrest.1, hrest.2.1, hrest.2.2.1, hrest.2.2.2.1, ?_, by rw [ht.objType]; exact hrest.2.2.2.2.2⟩
+          show Warn.fileObj ∈ (applyTail _ _).warnings
+          rw [hw]; exact List.mem_append_left _ hrest.2.2.2.2.1
+        | some n =>
+          rw [hpm] at hrest
+          simp only at hrest ⊢
+          exact ⟨hrest.1, hrest.2.1, hrest.2.2.1, hrest.2.2.2.1, by rw [ht.objType]; exact hrest.2.2.2.2⟩
+  · cases h1
+  · cases h1
+
+/-! ### object type -/
+
+/-- the object type the property asks for, from the file-type bits `mode & 0170000`. -/
+def specType (n : Nat) : Option Bytes :=
+  let t := n / 4096 % 16
+  if t = 8 then some vFile
+  else if t = 4 then some vDirectory
+  else if t = 2 then some vCharDevice
+  else if t = 6 then some vBlockDevice
+  else if t = 1 then some vNamedPipe
+  else if t = 10 then some vSymlink
+  else if t = 12 then some vSocket
+  else none
+
+/-- the full statement: for every st_mode the object type agrees with the file-type bits.
+False of the code as it is (known finding KF-C09-objtype). -/
+def C09_type_full : Prop :=
+  ∀ (n : Nat) (cur t : Bytes), n < 65536 → specType n = some t → classifyMode n cur = t
+
+/-- mode 040755 (a directory) is classified `file`. -/
+theorem C09_type_counterexample : ¬ C09_type_full := by
+  intro h
+  have := h 16877 [] vDirectory (by decide) (by decide)
+  revert this
+  decide
+
+/-- what does hold: every st_mode value (all 2^16) is classified `file`, because
+`os.FileMode` keeps its type bits at positions ≥ 19 — so the object type agrees with the
+file-type bits exactly for regular files (S_IFREG).  Missing w.r.t. `C09_type_full`:
+directories, character/block devices, named pipes, symlinks and sockets. -/
+theorem C09_type_partial (n : Nat) (cur : Bytes) (hn : n < 65536) :
+    classifyMode n cur = vFile ∧ (specType n = some vFile → classifyMode n cur = vFile) := by
+  have hb : ∀ i, 16 ≤ i → n.testBit i = false := by
+    intro i hi
+    apply Nat.testBit_lt_two_pow
+    calc n < 65536 := hn
+      _ = 2 ^ 16 := by decide
+      _ ≤ 2 ^ i := Nat.pow_le_pow_right (by omega) hi
+  have : classifyMode n cur = vFile := by
+    unfold classifyMode
+    simp [hb 19 (by decide), hb 21 (by decide), hb 24 (by decide), hb 25 (by decide), hb 26 (by decide),
+      hb 27 (by decide), hb 31 (by decide)]
+  exact ⟨this, fun _ => this⟩
+
+/-! ### non-vacuity, and the corner the `items` hypothesis excludes -/
+
+/-- a one-entry table set for the examples (the theorems above hold for every `T`). -/
+def toyNorm : Norm :=
+  { (default : Norm) with action := b! "opened-file", objectWhat := vFile, ecsCategory := [b! "file"], catCap := 1 }
+def toyT : Tables :=
+  { norms := [toyNorm], syscalls := [(b! "open", 0)], recordTypes := [], ranges := [(1300, 1399, 15)], defaultCat := 0 }
+
+def exSys : View := { typ := 1300, seq := 7, ts := 1000, tags := [b! "k"], data := some [(kSyscall, b! "open"), (kItems, b! "1"), (b! "uid", b! "0"), (kResult, b! "success"), (kPid, b! "42")] }
+def exCwd : View := { typ := 1307, seq := 7, ts := 1000, tags := [], data := some [(kCwd, b! "/"), (kPid, b! "43")] }
+def exExecve : View := { typ := 1309, seq := 7, ts := 1000, tags := [], data := some [(kArgc, b! "1"), (b! "a0", b! "ls")] }
+def exPath : View := { typ := 1302, seq := 7, ts := 1000, tags := [], data := some [(kName, b! "/tmp"), (kMode, b! "040755"), (kOuid, b! "0")] }
+def exEOE : View := { typ := 1320, seq := 7, ts := 1000, tags := [], data := none }
+/-- SYSCALL group with colliding `pid`, an EXECVE record, a directory PATH record, trailing EOE. -/
+def exMsgs : List View := [exSys, exCwd, exExecve, exPath, exEOE]
+
+/-- the hypotheses of `C09_conservation` are satisfiable by a non-trivial group … -/
+example : WellFormed (filterEOE exMsgs) := by
+  have hf : filterEOE exMsgs = [exSys, exCwd, exExecve, exPath] := by decide +kernel
+  rw [hf]
+  refine ⟨?_, fun _ => by decide +kernel, by decide +kernel, ?_⟩
+  · intro m hm
+    simp only [List.mem_cons, List.not_mem_nil, or_false] at hm
+    rcases hm with rfl | rfl | rfl | rfl
+    · exact ⟨fun d hd => by cases hd; decide +kernel, fun h => absurd h (by decide)⟩
+    · exact ⟨fun d hd => by cases hd; decide +kernel, fun h => absurd h (by decide)⟩
+    · refine ⟨fun d hd => by cases hd; decide +kernel, fun _ d hd argc n ha hp k hk => ?_⟩
+      cases hd
+      have hargc : argc = b! "1" := by
+        have : lookup kArgc [(kArgc, b! "1"), (b! "a0", b! "ls")] = some (b! "1") := by decide +kernel
+        rw [this] at ha; cases ha; rfl
+      subst hargc
+      have hn : n = 1 := by
+        have : parseUint 10 32 (b! "1") = some 1 := by decide +kernel
+        rw [this] at hp; cases hp; rfl
+      subst hn
+      simp only [keys, List.map_cons, List.map_nil, List.mem_cons, List.not_mem_nil, or_false] at hk
+      rcases hk with rfl | rfl
+      · exact Or.inl rfl
+      · exact Or.inr ⟨0, by decide, by decide +kernel⟩
+    · exact ⟨fun d hd => by cases hd; decide +kernel, fun h => absurd h (by decide)⟩
+  · intro _ s hs hst
+    left
+    simp only [List.mem_cons, List.not_mem_nil, or_false] at hs
+    rcases hs with rfl | rfl | rfl | rfl
+    · exact ⟨_, rfl, by decide +kernel⟩
+    · exact absurd hst (by decide)
+    · exact absurd hst (by decide)
+    · exact absurd hst (by decide)
+
+/-- … on which the model returns an event: identity of the first record, the colliding
+`pid` of the CWD record warned about, the first `pid` moved to `process.pid`, the args kept,
+the directory's mode printed as `0755` — and its object type `file` (the known finding). -/
+example : (match coalesce toyT exMsgs with
+    | .ok e =>
+      decide (e.seq = 7 ∧ e.ts = 1000 ∧ e.typ = 1300 ∧ e.cat = 15) &&
+      decide (Warn.dupKey kPid 1307 ∈ e.warnings) && decide (e.pid = b! "42") &&
+      decide (e.args = [b! "ls"]) && decide (e.paths.length = 1) &&
+      decide (e.file.map (·.mode) = some (b! "0755")) && decide (e.file.map (·.path) = some (b! "/tmp")) &&
+      decide (e.objType = vFile) && decide (lookup kItems e.data = none)
+    | _ => false) = true := by decide +kernel
+
+/-- the hypotheses of `C09_file` are satisfiable. -/
+example : ∃ e0, assemble toyT exMsgs = .ok e0 ∧ selectNorm toyT (setHowDefaults e0) = some 0 ∧
+    (normAt toyT 0).objectWhat = vFile ∧ e0.paths ≠ [] := by
+  refine ⟨((filterEOE exMsgs).foldl step (newEvent toyT exSys exSys)), by decide +kernel, by decide +kernel,
+    by decide +kernel, by decide +kernel⟩
+
+/-- errors: an empty group and a two-record group without SYSCALL. -/
+example : coalesce toyT [] = .err .empty ∧ coalesce toyT [exEOE] = .err .empty ∧
+    coalesce toyT [exCwd, exPath] = .err .noSyscall := by decide +kernel
+
+def ctrAvc : View := { typ := 1400, seq := 1, ts := 1, tags := [], data := some [(kItems, b! "5")] }
+def ctrSys : View := { typ := 1300, seq := 1, ts := 1, tags := [], data := some [(kSyscall, b! "open")] }
+def ctrEvent : Event :=
+  { ts := 1, seq := 1, cat := 0, typ := 1400, result := vUnknown, data := [(kSyscall, b! "open")],
+    warnings := [Warn.noNorm] }
+
+/-- Without the `items` hypothesis conservation fails: an AVC record's `items=5` ahead of a
+SYSCALL record that has no `items` key is added to Data and then deleted by the SYSCALL case
+of the loop, with no warning.  (No kernel SYSCALL record lacks `items`; reported as an
+observation, see design_notes/coalesce.md.) -/
+theorem C09_conservation_items_counterexample : ¬ C09_conservation_without_items_guard := by
+  intro h
+  have he : coalesce toyT [ctrAvc, ctrSys] = .ok ctrEvent := by decide +kernel
+  have hmem : ctrAvc ∈ filterEOE [ctrAvc, ctrSys] := by decide +kernel
+  rcases h toyT _ _ he ctrAvc hmem _ rfl kItems (b! "5") (by simp) with hl | hw | ⟨_, ht, _⟩
+  · rcases hl with h | h | h | ⟨i, _, hi⟩ | h | ⟨a, ha, _⟩
+    · revert h; decide +kernel
+    · revert h; decide +kernel
+    · rcases h with h | ⟨_, h⟩ | ⟨h, _⟩ | ⟨h, _⟩ | ⟨p, hp, _⟩
+      · revert h; decide +kernel
+      · revert h; decide +kernel
+      · revert h; decide +kernel
+      · revert h; decide +kernel
+      · simp [ctrEvent] at hp
+    · simp [ctrEvent] at hi
+    · rcases h with ⟨h, _⟩ | ⟨h, _⟩ | ⟨h, _⟩ | ⟨h, _⟩ | ⟨h, _⟩ | ⟨h, _⟩ <;> revert h <;> decide +kernel
+    · simp [ctrEvent] at ha
+  · rcases hw with h | h | ⟨h, _⟩ | ⟨h, _⟩
+    · revert h; decide +kernel
+    · revert h; decide +kernel
+    · revert h; decide +kernel
+    · revert h; decide +kernel
+  · revert ht; decide +kernel
+
 end LA.Coalesce
